@@ -60,6 +60,7 @@ struct C19 : Scenario {
             if (r.chance(0.7)) { c.rf_mod_ampl = std::round(r.uniform(0.05, 0.5) * 1000) / 1000; c.rf_mod_freq = std::round(d.fs * r.uniform(0.5, 2)); }
             if (r.chance(0.6) || c.rf_mod_ampl == 0) c.rf_phase_spread = 0.01;
             if (r.chance(0.4)) c.rf_ampl_spread = 1e-3;
+            if (r.chance(0.3)) { wild_cfg(r, c); p.seti("wild", 1); d = derive(c); }
             long nv = r.range(2, 5);
             p.seti("nvar", nv);
             for (long i = 0; i < nv; i++) {
@@ -71,7 +72,8 @@ struct C19 : Scenario {
             c.gap = 0; c.wallcond = 0; c.collimator = 0;
             if (r.chance(0.25)) { long ns = derive(c).laststep; c.steps_per_rev = r.uniform(0.05, 0.4); c.rotations = (ns - 0.5) / derive(c).steps; c.rf_mod_freq = std::round(derive(c).fs * r.uniform(0.3, 3)); }
             else if (r.chance(0.3)) {   // long run: more than 4096 steps
-                c.grid = 12; c.steps = r.range(40, 200); long nsteps = r.range(4200, 9000);
+                c.grid = 12; c.steps = r.range(40, 200);
+                long nsteps = r.pick(std::vector<long>{r.range(4200, 9000), r.range(4097, 4200), r.range(16385, 18000), r.range(16385, 16500), tier == "quick" ? r.range(8193, 9000) : r.range(32769, 34000), tier == "quick" ? r.range(16385, 17000) : r.range(65537, 66000)});
                 c.rotations = (nsteps - 0.5) / (double)c.steps; c.outstep = r.pick(std::vector<long>{0, 1000, 4096, 5000}); c.saveps = 0;
                 c.currents = {1e-3}; c.tdamp = 0; c.renorm = 0;
             }
